@@ -14,7 +14,15 @@ Reference  written from the property text: a change of (gene, value) is AUTHORIS
            log entry. Authorised ones may change exactly that gene of exactly that genome.
 Profiles   `wide`  = the full operation alphabet of the design, shallow;
            `deep`  = a focused alphabet (values / approval / rollback / lineage), to depth 8 (thorough);
-           `sweep` = every gene-type triple x expression-level triple x context subset for express().
+           `x`     = the "unusual dimensions" family: the deep-style alphabet (plus falsy / container values, per-call
+                     reasons, an empty replication-mutation dict) on roots that each leave ONE or TWO of the dimensions
+                     the other profiles hold fixed: what the approval callback answers (truthy / falsy non-bools, None,
+                     exceptions of several classes with an empty message, an answer that depends on the consultation
+                     count), falsy and dict initial values, an unrelated mutable Genome built from the same frozen
+                     genes in the same process, silent=False, construction through add_gene / from_dict,
+                     mutation_rate=1 with a refusing authority;
+           `sweep` = every gene-type triple x expression-level triple x context subset for express(), each subset
+                     with truthy, falsy and None context values (and context=None / an unrelated extra key).
 All observations go through the public API (get_gene, export, get_hash, get_statistics, express);
 `_mutations` is peeked at only to key the canonical state.
 """
@@ -23,8 +31,11 @@ from __future__ import annotations
 import collections
 import copy
 import datetime
+import io
 import itertools
 import json
+import random
+import sys
 
 from mc import common, explore
 
@@ -32,13 +43,31 @@ from operon_ai.state.genome import ExpressionLevel, Gene, GeneType, Genome
 
 NAMES = ("g0", "g1", "g2")
 VALUES = (1, "a", [1])
+# root["vals"]: 1 = falsy scalars and a nested container; 2 = numbers whose random replication mutation (+-5 %) is never
+# the value itself under the pinned random seed (mutation_rate roots)
+VALSETS = (VALUES, (0, "", {"k": [1]}), (100, 2.5, [1]))
 READD = "r"
 LEVELS = ("SILENCED", "LOW", "NORMAL", "HIGH", "OVEREXPRESSED")
 GTYPES = ("STRUCTURAL", "REGULATORY", "HOUSEKEEPING", "CONDITIONAL", "DORMANT")
-MUTSETS = (None, (("g0", 9),), (("g0", 9), ("g1", "z")), (("g1", 9), ("nope", 9)))
+MUTSETS = (None, (("g0", 9),), (("g0", 9), ("g1", "z")), (("g1", 9), ("nope", 9)),
+           (("g2", {"k": 2}), ("g0", 0)), ())
 CTXS = ((), ("g0",), ("g1", "g2"), ("g0", "g1", "g2"))
 CBS = ("absent", "none", "g0", "v9", "all")
 NOVAL = "<none>"
+# what a callback answers: kind = "<selector>" (True / False) or "<selector>|<yes>|<no>"; selector decides WHETHER the
+# callback approves (none / g0 / v9 / all / alt = every other consultation), yes / no decide HOW it says so
+YES = {"T": True, "1": 1, "y": "y", "[0]": [0]}
+NO = {"F": False, "N": None, "0": 0, "e": "", "[]": [], "!V": ValueError, "!S": StopIteration, "!K": KeyError, "!A": AssertionError}
+
+
+def fresh(x):
+    """A fresh, list-based copy of an alphabet value (a JSON round trip of a replay case turns lists into tuples; the
+    library must never get an object the harness keeps)."""
+    if isinstance(x, (list, tuple)):
+        return [fresh(y) for y in x]
+    if isinstance(x, dict):
+        return {k: fresh(y) for k, y in x.items()}
+    return x
 
 
 _FZC = {}
@@ -73,15 +102,36 @@ def approves(kind, gene, value):
 
 
 class Approver:
-    """The on_mutation callback; records what it was asked (deep-copied together with the lineage)."""
+    """The on_mutation callback; records what it was asked (copied together with the lineage). Whether it approves is
+    a function of (gene, new value, number of earlier consultations) only; `decide` lets the oracle ask the same
+    question without the library in between."""
 
     def __init__(self, kind):
         self.kind = kind
+        parts = kind.split("|")
+        self.sel = parts[0]
+        self.yes = parts[1] if len(parts) > 1 else "T"
+        self.no = parts[2] if len(parts) > 2 else "F"
         self.calls = []
+        self.n = 0  # consultations so far
+        self.raised = None  # the exception object this callback raised during the current step
+
+    def decide(self, gene, value, n):
+        if self.sel == "alt":
+            return n % 2 == 0
+        return approves(self.sel, gene, value)
 
     def __call__(self, m):
         self.calls.append((m.gene_name, fz(m.new_value), fz(m.original_value)))
-        return approves(self.kind, m.gene_name, m.new_value)
+        ok = self.decide(m.gene_name, m.new_value, self.n)
+        self.n += 1
+        if ok:
+            return fresh(YES[self.yes])
+        no = NO[self.no]
+        if isinstance(no, type):
+            self.raised = no("") if no is KeyError else no()  # empty message
+            raise self.raised
+        return fresh(no)
 
 
 _ATOMIC = (int, float, str, bool, type(None), Gene, ExpressionLevel, GeneType, datetime.datetime)
@@ -114,6 +164,7 @@ def clone_lineage(genomes, cb):
         if isinstance(x, Approver):
             n = memo[k] = Approver(x.kind)
             n.calls = list(x.calls)
+            n.n = x.n
             return n
         if isinstance(x, Genome) or type(x).__name__ in ("ExpressionState", "Mutation"):
             n = memo[k] = object.__new__(type(x))
@@ -128,7 +179,7 @@ def clone_lineage(genomes, cb):
 
 
 class Ref:
-    __slots__ = ("values", "level", "top", "parent")
+    __slots__ = ("values", "level", "top", "parent", "allow", "cb")
 
     def copy(self):
         r = Ref()
@@ -136,11 +187,13 @@ class Ref:
         r.level = dict(self.level)
         r.top = dict(self.top)
         r.parent = self.parent
+        r.allow = self.allow  # mutations enabled for THIS genome (constructor argument, inherited by children)
+        r.cb = self.cb        # this genome was given the approval callback
         return r
 
 
 class State:
-    __slots__ = ("root", "genomes", "cb", "refs", "obs", "types", "dflt")
+    __slots__ = ("root", "genomes", "cb", "refs", "obs", "types", "dflt", "vals", "desc", "req", "loud", "rate")
 
 
 PROFILES = {}
@@ -169,6 +222,18 @@ PROFILES.update({
     ),
 })
 PROFILES["deep2"] = dict(PROFILES["deep"], maxg=2)
+# mutate entries may carry a third element: the `reason` argument (default "test")
+PROFILES["x"] = dict(
+    maxg=2,  # +1 when the root has a stranger
+    readd=("g0",),
+    mutate=[("g0", 9), ("g0", None), ("g1", 0, "rollback"), ("g2", [2], "")],
+    rollback=("g0", "g2"),
+    setexpr=[],
+    silence=("g0",),
+    activate=(),
+    replicate=[(2, True), (4, False), (5, True)],
+    express=(),
+)
 
 
 def ref_express(st, j, ctx):
@@ -219,6 +284,23 @@ def _peek_top(g):
     return tuple(sorted(top.items()))
 
 
+class _quiet:
+    """Swallow what a silent=False genome prints (the check itself prints nothing per case)."""
+
+    def __init__(self, on):
+        self.on = on
+
+    def __enter__(self):
+        if self.on:
+            self.old = sys.stdout
+            sys.stdout = io.StringIO()
+
+    def __exit__(self, *a):
+        if self.on:
+            sys.stdout = self.old
+        return False
+
+
 class Model:
     def __init__(self, tier, profile, roots):
         self.tier = tier
@@ -236,29 +318,65 @@ class Model:
         st.types = dict(zip(NAMES, root["types"]))
         st.dflt = dict(zip(NAMES, root["dflt"]))
         st.cb = None if root["cb"] == "absent" else Approver(root["cb"])
-        genes = [Gene(name=n, value=copy.deepcopy(v), gene_type=GeneType[st.types[n]], description="d" + n,
-                      default_expression=ExpressionLevel[st.dflt[n]]) for n, v in zip(NAMES, VALUES)]
-        g = Genome(genes=genes, allow_mutations=bool(root["allow"]), mutation_rate=0.0, on_mutation=st.cb, silent=True)
-        st.genomes = [g]
-        r = Ref()
-        r.values = {n: fz(v) for n, v in zip(NAMES, VALUES)}
-        r.level = dict(st.dflt)
-        r.top = {n: NOVAL for n in NAMES}
-        r.parent = None
-        st.refs = [r]
-        st.obs = [observe_genome(g)]
+        st.vals = VALSETS[root.get("vals", 0)]
+        st.loud = bool(root.get("loud"))          # silent=False (output swallowed)
+        st.rate = float(root.get("rate", 0.0))     # mutation_rate
+        ctor = root.get("ctor", "list")
+        if st.rate and (root["allow"] or root["cb"].split("|")[0] not in ("absent", "none")):
+            raise common.HarnessError("mutation_rate roots need an authority that refuses the random mutations")
+        # `required` is held at True for g0 and g2 so that a change that drops gene metadata is visible
+        st.desc = {n: ("" if ctor == "from_dict" else "d" + n) for n in NAMES}
+        st.req = {n: (ctor != "from_dict" and k != 1) for k, n in enumerate(NAMES)}
+        genes = [Gene(name=n, value=fresh(v), gene_type=GeneType[st.types[n]], description=st.desc[n], required=st.req[n],
+                      default_expression=ExpressionLevel[st.dflt[n]]) for n, v in zip(NAMES, st.vals)]
+        kw = dict(allow_mutations=bool(root["allow"]), mutation_rate=st.rate, on_mutation=st.cb, silent=not st.loud)
+        with _quiet(st.loud):
+            if ctor == "list":
+                g = Genome(genes=genes, **kw)
+            elif ctor == "add":  # adding a NEW name is always accepted
+                g = Genome(**kw)
+                for x in genes:
+                    if g.add_gene(x) is not True:
+                        raise common.HarnessError("add_gene of a new name was not accepted")
+            elif ctor == "from_dict":
+                if set(st.types.values()) != {"STRUCTURAL"} or set(st.dflt.values()) != {"NORMAL"}:
+                    raise common.HarnessError("from_dict roots need STRUCTURAL / NORMAL genes")
+                g = Genome.from_dict({n: fresh(v) for n, v in zip(NAMES, st.vals)}, **kw)
+            else:
+                raise AssertionError(ctor)
+            st.genomes = [g]
+            r = Ref()
+            r.values = {n: fz(v) for n, v in zip(NAMES, st.vals)}
+            r.level = dict(st.dflt)
+            r.top = {n: NOVAL for n in NAMES}
+            r.parent = None
+            r.allow = bool(root["allow"])
+            r.cb = st.cb is not None
+            st.refs = [r]
+            if root.get("stranger"):
+                # an unrelated genome of the same process, built AFTER the judged one from the same frozen Gene objects,
+                # with mutations enabled and no callback: nothing it is allowed to do may leak into the lineage
+                s2 = Genome(genes=genes, allow_mutations=True, mutation_rate=0.0, on_mutation=None, silent=not st.loud)
+                r2 = r.copy()
+                r2.allow, r2.cb = True, False
+                st.genomes.append(s2)
+                st.refs.append(r2)
+        st.obs = [observe_genome(x) for x in st.genomes]
         return st
 
     def clone(self, st):
         c = State()
         c.root, c.types, c.dflt = st.root, st.types, st.dflt
+        c.vals, c.desc, c.req, c.loud, c.rate = st.vals, st.desc, st.req, st.loud, st.rate
         c.genomes, c.cb = clone_lineage(st.genomes, st.cb)  # one memo: aliasing inside the lineage is preserved
         c.refs = [r.copy() for r in st.refs]
         c.obs = list(st.obs)
         return c
 
-    def auth(self, st, gene, value):
-        return bool(st.root["allow"]) or (st.cb is not None and approves(st.cb.kind, gene, value))
+    def auth(self, st, j, gene, value, n):
+        """Is changing `gene` of genome j to `value` authorised, when the callback has been consulted n times before?"""
+        r = st.refs[j]
+        return r.allow or (r.cb and st.cb.decide(gene, value, n))
 
     def ops(self, st):
         P = self.P
@@ -266,8 +384,8 @@ class Model:
         for i in range(len(st.genomes)):
             for g in P["readd"]:
                 o.append(("readd", i, g))
-            for g, v in P["mutate"]:
-                o.append(("mutate", i, g, v))
+            for mv in P["mutate"]:
+                o.append(("mutate", i) + tuple(mv))
             for g in P["rollback"]:
                 o.append(("rollback", i, g))
             for g, l in P["setexpr"]:
@@ -287,15 +405,17 @@ class Model:
         for g, r, o in zip(st.genomes, st.refs, st.obs):
             out.append((r.parent, o[O_GENES], o[O_LEVELS], tuple(sorted(r.top.items())), _peek_top(g),
                         bool(getattr(g, "allow_mutations", None)), getattr(g, "on_mutation", None) is None))
+        if st.cb is not None and st.cb.sel == "alt":
+            out.append(("consultations", st.cb.n % 2))
         return tuple(out)
 
     def observe(self, st):
         # vacuity guard; a function of the canonical state only (so the count cannot depend on which history
         # represents a state): lineage shape, how many values differ from the initial ones, silenced genes,
         # genes with an approved mutation to roll back
-        init = {n: fz(v) for n, v in zip(NAMES, VALUES)}
+        init = {n: fz(v) for n, v in zip(NAMES, st.vals)}
         return tuple((c[0], sum(1 for x in c[1] if init.get(x[0]) != x[1]), sum(1 for _, l in c[2] if l == 0), len(c[4]))
-                     for c in self.canon(st))
+                     for c in self.canon(st)[:len(st.genomes)])
 
     # ------------------------------------------------------------------------------------------------
     def step(self, st, op):
@@ -303,16 +423,23 @@ class Model:
         kind, i = op[0], op[1]
         g = st.genomes[i]
         before = st.obs
+        n0 = 0
         if st.cb is not None:
             st.cb.calls.clear()
+            st.cb.raised = None
+            n0 = st.cb.n  # consultations before this operation
         child = None
+        raised = False
+        old_stdout = sys.stdout
+        if st.loud:
+            sys.stdout = io.StringIO()
         try:
             if kind == "readd":
                 n = op[2]
-                ret = g.add_gene(Gene(name=n, value=READD, gene_type=GeneType[st.types[n]], description="d" + n,
-                                      default_expression=ExpressionLevel[st.dflt[n]]))
+                ret = g.add_gene(Gene(name=n, value=READD, gene_type=GeneType[st.types[n]], description=st.desc[n],
+                                      required=st.req[n], default_expression=ExpressionLevel[st.dflt[n]]))
             elif kind == "mutate":
-                ret = g.mutate(op[2], op[3], "test")
+                ret = g.mutate(op[2], fresh(op[3]), op[4] if len(op) > 4 else "test")
             elif kind == "rollback":
                 ret = g.rollback_mutation(op[2])
             elif kind == "setexpr":
@@ -323,18 +450,28 @@ class Model:
                 ret = g.activate_gene(op[2], "test")
             elif kind == "replicate":
                 ms = MUTSETS[op[2]]
-                child = g.replicate(mutations=None if ms is None else dict(ms), inherit_expression=bool(op[3]))
+                if st.rate:
+                    random.seed(0)  # mutation_rate = 1: WHICH genes are tried is certain, the tried values are pinned here
+                child = g.replicate(mutations=None if ms is None else {k: fresh(x) for k, x in ms}, inherit_expression=bool(op[3]))
                 ret = child
             elif kind == "express":
                 ret = g.express({n: True for n in CTXS[op[2]]})
             else:
                 raise AssertionError(op)
         except Exception as e:  # noqa: BLE001
-            return [(f"raises:{kind}:{type(e).__name__}", f"{kind} raised {type(e).__name__}: {e}")]
+            if st.cb is not None and st.cb.raised is e:
+                # the callback itself refused by raising and the library let it through: the caller is told, the change
+                # is NOT authorised -- judged below like a refusal (whether the attempt is logged is not asserted)
+                raised = True
+                ret = child = None
+            else:
+                return [(f"raises:{kind}:{type(e).__name__}", f"{kind} raised {type(e).__name__}: {e}")]
+        finally:
+            sys.stdout = old_stdout
         after = [observe_genome(x) for x in st.genomes]
         st.obs = after
         calls = list(st.cb.calls) if st.cb is not None else []
-        consult = (not st.root["allow"]) and st.cb is not None  # the callback is the only authority
+        consult = (not st.refs[i].allow) and st.refs[i].cb  # the callback is the only authority for genome i
         # -- no operation on genome i may touch another genome of the lineage --------------------------
         for j in range(len(st.genomes)):
             if j != i and after[j] != before[j]:
@@ -352,6 +489,8 @@ class Model:
             return True
 
         def refused_logged(tag):
+            if raised and dlog[0] == 0:
+                return
             if dlog[0] != 1:
                 v.append((f"refused-not-logged:{tag}", f"refused {tag}: mutation log grew by {dlog[0]} entries, expected exactly 1 unapproved"))
             if dlog[1] != 0:
@@ -366,7 +505,7 @@ class Model:
 
         if kind == "readd":
             n = op[2]
-            if not self.auth(st, n, READD):
+            if not self.auth(st, i, n, READD, n0):
                 unchanged("readd")
                 if dlog[1] != 0:
                     v.append(("refused-logged-as-approved:readd", f"approved_mutations grew by {dlog[1]}"))
@@ -380,7 +519,7 @@ class Model:
                 v.append(("authorised-change-wrong:readd", f"re-adding {n}={READD!r} produced {_delta(b, a)}"))
             # a (re-)added gene takes some expression level; which one is the library's choice: observed, not asserted
             lv = dict(a[O_LEVELS])[n]
-            if isinstance(lv, int) and 0 <= lv < len(LEVELS) and not v and self.auth(st, n, READD):
+            if isinstance(lv, int) and 0 <= lv < len(LEVELS) and not v and self.auth(st, i, n, READD, n0):
                 r.level[n] = _level_name(lv)
         elif kind == "mutate":
             n, val = op[2], op[3]
@@ -392,7 +531,7 @@ class Model:
             else:
                 if consult and calls != [(n, fz(val), cur)]:
                     v.append(("callback-not-asked-about-this-change:mutate", f"mutate({n},{val!r}) with value {cur}: callback saw {calls}"))
-                if not self.auth(st, n, val):
+                if not self.auth(st, i, n, val, n0):
                     unchanged("mutate")
                     refused_logged("mutate")
                 elif exactly(n, fz(val), "mutate") and (ret is True or not same_config(b, a)):
@@ -416,7 +555,7 @@ class Model:
                 tv = json.loads(t)
                 if consult and calls != [(n, t, cur)]:
                     v.append(("callback-not-asked-about-this-change:rollback", f"rollback({n}) to {t} from {cur}: callback saw {calls}"))
-                if not self.auth(st, n, tv):
+                if not self.auth(st, i, n, tv, n0):
                     unchanged("rollback")
                     refused_logged("rollback")
                 else:
@@ -445,9 +584,13 @@ class Model:
         elif kind == "replicate":
             if a != b:
                 v.append(("replicate-alters-parent", f"replicate on genome {i} changed it: {_delta(b, a)}"))
+            if child is None and not raised:
+                v.append(("replicate-returned-no-genome", f"replicate returned {ret!r}"))
+        if kind == "replicate" and child is not None:
             co = observe_genome(child)
             cr = Ref()
             cr.parent = i
+            cr.allow, cr.cb = r.allow, r.cb  # a child inherits its parent's authority
             cr.values = dict(r.values)
             cr.level = dict(r.level) if op[3] else dict(st.dflt)
             cr.top = {n: NOVAL for n in NAMES}
@@ -457,9 +600,9 @@ class Model:
             allowed = {n: {r.values[n]} for n in NAMES}
             exp_calls = []
             n_auth = n_applied = n_ambig = 0
-            for n, val in existing:
+            for k, (n, val) in enumerate(existing):
                 exp_calls.append((n, fz(val), cr.values[n]))
-                if self.auth(st, n, val):
+                if self.auth(st, i, n, val, n0 + k):
                     n_auth += 1
                     allowed[n].add(fz(val))
                     if cv.get(n) == fz(val):
@@ -481,12 +624,21 @@ class Model:
                 meta_c = tuple((x[0],) + x[2:] for x in co[O_GENES])
                 if meta_p != meta_c:
                     v.append(("child-gene-metadata-differs", f"parent {meta_p} child {meta_c}"))
+            n_tried = len(existing)
+            if st.rate:
+                # mutation_rate = 1 under a refusing authority: replicate may try further (random) mutations; every one the
+                # callback was asked about is an attempt that must be refused and logged; nothing may differ from the parent
+                extra = calls[len(exp_calls):] if consult else []
+                if any(self.auth(st, i, x[0], json.loads(x[1]), n0 + len(exp_calls) + k) for k, x in enumerate(extra)):
+                    raise common.HarnessError("mutation_rate roots need an authority that refuses the random mutations")
+                calls = calls[:len(exp_calls)]
+                n_tried = len(existing) + len(extra) if consult else max(len(existing), co[O_LOG][0])
             if consult and calls != exp_calls:
                 v.append(("callback-not-asked-about-this-change:replicate", f"replicate({ms}): callback saw {calls}, expected {exp_calls}"))
             clog = co[O_LOG]
-            if clog[0] != len(existing):
+            if clog[0] != n_tried:
                 v.append((("refused-not-logged:replicate" if n_auth < len(existing) else "applied-mutation-not-logged:replicate"),
-                          f"replicate({ms}): child log has {clog[0]} entries for {len(existing)} attempted mutations of existing genes "
+                          f"replicate({ms}): child log has {clog[0]} entries for {n_tried} attempted mutations of existing genes "
                           f"({len(existing) - n_auth} unauthorised)"))
             if not (n_applied <= clog[1] <= n_applied + n_ambig):
                 v.append((("refused-logged-as-approved:replicate" if clog[1] > n_applied + n_ambig else "applied-mutation-not-logged:replicate"),
@@ -510,9 +662,10 @@ class Model:
                                   f"after {kind} on genome {i}: genome {j} express({list(ctx)}) = {dict(after[j][O_EXPR][ci])}, expected {dict(want)}"))
                         break
                 # configuration hash is a function of the values: equal value dicts <=> equal hashes inside a lineage
-            if kind == "replicate" and not v and values_of(after[-1]) == values_of(after[i]) and after[-1][O_HASH] != after[i][O_HASH]:
+            if kind == "replicate" and child is not None and not v and values_of(after[-1]) == values_of(after[i]) \
+                    and after[-1][O_HASH] != after[i][O_HASH]:
                 v.append(("child-hash-differs-with-equal-values", f"{after[-1][O_HASH]} vs {after[i][O_HASH]}"))
-        if kind == "replicate" and len(st.genomes) > self.P["maxg"]:
+        if kind == "replicate" and child is not None and len(st.genomes) > self.P["maxg"] + (1 if st.root.get("stranger") else 0):
             st.genomes.pop()
             st.refs.pop()
             st.obs = st.obs[:-1]
@@ -577,13 +730,22 @@ def sweep_case(case):
                 if l == "SILENCED" or t == "DORMANT" or (t == "CONDITIONAL" and n not in ctx):
                     continue
                 want[n] = val
-            try:
-                got = g.express({n: True for n in ctx})
-            except Exception as e:  # noqa: BLE001
-                v.append((f"raises:express:{type(e).__name__}", str(e)))
+            # "named in the context" = the key is present, whatever it maps to; an unrelated key names nothing; for the
+            # empty subset also context=None
+            variants = [{n: True for n in ctx}, {n: None for n in ctx}, {n: (0 if k % 2 else "") for k, n in enumerate(ctx)},
+                        dict({n: True for n in ctx}, zz=True)] + ([None] if not ctx else [])
+            for cv in variants:
+                try:
+                    got = g.express(cv)
+                except Exception as e:  # noqa: BLE001
+                    v.append((f"raises:express:{type(e).__name__}", str(e)))
+                    continue
+                n_eval += 1
+                outs.add(tuple(sorted(got)))
+                if got != want:
+                    break
+            else:
                 continue
-            n_eval += 1
-            outs.add(tuple(sorted(got)))
             if got != want:
                 st = State()
                 st.types = dict(zip(NAMES, types))
@@ -591,7 +753,7 @@ def sweep_case(case):
                 rr.level = dict(zip(NAMES, cur))
                 st.refs = [rr]
                 v.append((_express_key(st, 0, ctx, {k: fz(x) for k, x in got.items()}, {k: fz(x) for k, x in want.items()}),
-                          f"types {types} levels {cur} express({list(ctx)}) = {got}, expected {want}"))
+                          f"types {types} levels {cur} express({cv}) = {got}, expected {want}"))
     if g.get_hash() != h0:
         v.append(("expression-change-altered-config:sweep", "hash changed by expression calls / express"))
     return v, n_eval, outs
@@ -638,16 +800,61 @@ def make_roots(profile, sets, configs=CONFIGS):
     return [{"profile": profile, "types": list(t), "dflt": list(d), "allow": a, "cb": c} for (t, d) in sets for (a, c) in configs]
 
 
+def x_roots():
+    """Roots of the `x` profile: each leaves one (the last block: two) of the dimensions that the other profiles hold
+    fixed. Every way of saying no is paired with a way of saying yes under a selective callback (approves g0 only), so
+    both answers occur in every root."""
+    mixed, plain = REP_SETS[1], REP_SETS[5]
+    out = []
+
+    def add(sets, allow, cb, **kw):
+        t, d = sets
+        out.append(dict({"profile": "x", "types": list(t), "dflt": list(d), "allow": allow, "cb": cb}, **kw))
+
+    yes = sorted(YES)
+    for k, no in enumerate(sorted(NO)):                       # callback answers
+        add(mixed, False, f"g0|{yes[k % len(yes)]}|{no}")
+    for cb in ("v9|1|N", "alt", "alt|y|!V", "all|[0]|F", "none|T|N"):
+        add(mixed, False, cb)
+    for a, c in CONFIGS:                                       # falsy / nested initial values
+        add(mixed, a, c, vals=1)
+    for cb in ("absent", "none", "g0", "alt"):                # an unrelated mutable genome in the same process
+        add(mixed, False, cb, stranger=True)
+    for a, c in ((False, "absent"), (False, "g0"), (True, "absent")):
+        add(mixed, a, c, loud=True)                            # silent=False
+    for ctor, sets in (("add", mixed), ("from_dict", plain)):  # other public ways to construct
+        for c in ("absent", "g0"):
+            add(sets, False, c, ctor=ctor)
+    for c in ("absent", "none"):                               # mutation_rate=1, nothing authorised
+        add(mixed, False, c, rate=1.0, vals=2)
+    # two unusual things at once
+    add(mixed, False, "g0|1|N", vals=1)
+    add(mixed, False, "g0|y|!K", vals=1, stranger=True)
+    add(mixed, False, "alt|T|!S", loud=True)
+    add(plain, False, "g0|[0]|0", ctor="from_dict", vals=1)
+    add(mixed, False, "none|T|e", rate=1.0, vals=2, stranger=True)
+    add(mixed, False, "absent", ctor="add", stranger=True, loud=True)
+    return out
+
+
 def plan(tier):
     """[(profile, roots, depth)]"""
     import os
-    dd = [int(x) for x in os.environ.get("C20_DEPTHS", "0,0,0,0").split(",")]
+    dd = [int(x) for x in os.environ.get("C20_DEPTHS", "0,0,0,0,0").split(",")] + [0]
+    only = os.environ.get("C20_ONLY")  # development aid: restrict to one profile
+    if only:
+        return [p for p in _plan(tier, dd) if p[0] in only.split(",")]
+    return _plan(tier, dd)
+
+
+def _plan(tier, dd):
     if tier == "quick":
         return [("deep2", make_roots("deep2", REP_SETS[:2]), dd[0] or 5), ("deep", make_roots("deep", REP_SETS[:2]), dd[1] or 4),
-                ("wide", make_roots("wide", REP_SETS), dd[2] or 2)]
+                ("wide", make_roots("wide", REP_SETS), dd[2] or 2), ("x", x_roots(), dd[4] or 3)]
     all_types = [(t, REP_SETS[k % len(REP_SETS)][1]) for k, t in enumerate(itertools.product(GTYPES, repeat=3))]
     return [("deep2", make_roots("deep2", REP_SETS[:2]), dd[0] or 8), ("deep", make_roots("deep", REP_SETS[:2]), dd[1] or 5),
-            ("wide", make_roots("wide", REP_SETS), dd[2] or 3), ("wide", make_roots("wide", all_types), dd[3] or 2)]
+            ("wide", make_roots("wide", REP_SETS), dd[2] or 3), ("wide", make_roots("wide", all_types), dd[3] or 2),
+            ("x", x_roots(), dd[4] or 4)]
 
 
 def self_check(ctx):
@@ -673,7 +880,6 @@ def self_check(ctx):
 
 
 def run(ctx):
-    self_check(ctx)
     tot = collections.Counter()
     caps = []
     depths = {}
@@ -696,6 +902,11 @@ def run(ctx):
         if res["capped"]:
             caps.append(f"{profile}{idx}: state cap")
             exhaustive = False
+    if not ctx.violations and not ctx.known_hits:
+        # harness self-check AFTER the exploration and only on a silent tree (like the canon validation): state that leaks
+        # between Genome objects of one process (class- / module-level tables) also breaks clone-vs-replay equality, and
+        # must be reported as the VIOLATION it is, not as a harness error
+        self_check(ctx)
     cases = sweep_cases(ctx.tier)
     chunks = common.chunked(cases, common.NPROC * 4)
     n_eval = 0
@@ -716,6 +927,17 @@ def run(ctx):
     ctx.note("a refused re-add (add_gene of an existing name) is not logged by the library; the log has no vocabulary for it "
              "(observed, not asserted)")
     ctx.note("authorised changes are not required to succeed (statement is one-directional) except rollback, which must restore")
+    ctx.note("a callback that refuses by RAISING: the library lets the exception through and does not log the attempt; asserted: "
+             "nothing changes anywhere in the lineage and nothing is logged as approved (the caller is told by the exception; "
+             "whether such an attempt counts as 'refused and logged' is the stronger reading, not asserted)")
+    probe = [1]
+    pg = Genome(genes=[Gene(name="p", value=probe)], silent=True)
+    h0 = pg.get_hash()
+    probe.append(2)
+    if pg.get_hash() != h0 or pg.get_gene("p").value is probe:
+        ctx.note("Gene stores the caller's object by reference and get_gene / express / export hand the same object out: a caller "
+                 "that mutates a list / dict value IN PLACE changes the stored value and the hash without any configuration "
+                 "operation; the statement quantifies over configuration operations only, so this is an assumption, not a verdict")
     ctx.coverage.update(
         states=tot["states"],
         transitions=tot["transitions"],
@@ -725,8 +947,10 @@ def run(ctx):
         rule="engine A: BFS over operation histories on a live lineage of <=3 Genome objects; every operation of the profile's "
         "alphabet is applied to the real objects in every distinct canonical state (per genome: parent index, gene values, "
         "expression levels, original value of the last approved mutation per gene); distinct/non-trivial = distinct canonical "
-        "state. sweep: every gene-type triple x expression-level triple (reached by defaults / set_expression / silence+activate) "
-        "x every context subset through express()",
+        "state; profile x = the same search from roots that vary the callback's answers (truthy / falsy non-bools, None, "
+        "raising), falsy / dict values, an unrelated mutable genome of the same process, silent, constructor path, mutation_rate. "
+        "sweep: every gene-type triple x expression-level triple (reached by defaults / set_expression / silence+activate) "
+        "x every context subset (truthy / None / falsy values, an unrelated extra key, context=None) through express()",
         exhaustive=exhaustive,
         fixpoint=False,
         bounds=depths,
@@ -736,8 +960,12 @@ def run(ctx):
     if caps:
         ctx.coverage["caps_hit"] = "; ".join(caps)
     ctx.assumptions += [
-        "mutation_rate = 0 (random replication mutations are outside the deterministic alphabet)",
-        "values {1,'a',[1]} mutated to {9,'z'} / re-added as 'r'; callbacks are pure predicates of (gene, new value)",
+        "mutation_rate = 0, except the x roots with mutation_rate = 1 under an authority that refuses everything (there the "
+        "verdict does not depend on the random values; the random module is re-seeded before each such replicate)",
+        "values {1,'a',[1]} mutated to {9,'z'} / re-added as 'r'; profile x adds initial values {0,'',{'k':[1]}} / {100,2.5,[1]} and "
+        "targets {None, 0, [2], {'k':2}}; callbacks decide by (gene, new value) or by the parity of the consultation count, "
+        "answer with bools, truthy / falsy non-bools, None or by raising, and never modify the Mutation record they are shown",
+        "allow_mutations / on_mutation are given to the constructor and not reassigned afterwards",
         "exhaustive = every history up to the stated depth per profile over the stated alphabet (the state space is not finite: "
         "no fixpoint); the deep profile restricts the alphabet to reach depth 8",
         "gene values are never mutated in place by the caller (a list value obtained from get_gene() is shared by design)",
